@@ -4,7 +4,8 @@
    expressions, do_lineprefix and the auto-indent constants re-translated from /repo on every run).
    Whole-engine equivalence with stock Jinja2 is NOT a theorem (no Gallina semantics of Jinja): it is probed by
    differential rendering in tools/checks/c19.py (partial). *)
-From Verif Require Import JinjaScan JinjaScanThm JinjaLinePrefixThm.
+From Coq Require Import String.
+From Verif Require Import JinjaScan JinjaScanThm JinjaLinePrefixThm JinjaRules Gen_JinjaRules JinjaRulesThm.
 Open Scope N_scope.
 
 (* (1) Conservativity of the lexer modification.  For EVERY source that contains no occurrence of an opener followed by
@@ -134,3 +135,40 @@ Print Assumptions C19_ifuses_is_conditional.
 Example C19_ifuses_example :
   eval_if (parse_ifuses (false, false, 1) [(true, true, 2); (true, false, 3)] 4) = 3.
 Proof. reflexivity. Qed.
+
+(* (6) EVERY rule of EVERY lexer state (root, comment, block, variable, raw, line statement, line comment; pattern text,
+   token spec, state transition), for every listed Environment option combination (lstrip_blocks x trim_blocks, line
+   statement/comment prefixes, non-default delimiters), regenerated from the live bundled lexer, is the upstream 2.x rule --
+   the ONLY deviation is the marker alternative in the root rule.  Any edit of any rule breaks this obligation. *)
+Theorem C19_bundled_rules_are_upstream_plus_marker :
+  bundled_lexer_tables = map (fun c => build bundled_gen c tag_rules_2x) lexer_combos.
+Proof. exact bundled_tables_lemma. Qed.
+Print Assumptions C19_bundled_rules_are_upstream_plus_marker.
+
+(* ... and the non-root rules relate to the rules of the installed stock Jinja2 for the same options: both are instances of
+   ONE table builder; the generations differ only by the three documented upstream switches of `gen` ('+' sign in end
+   rules, sign group + stripping in code instead of \s*D\-|PREFIX, position of trim_blocks' \n?). *)
+Theorem C19_nonroot_rules_equal_stock :
+  map nonroot bundled_lexer_tables = map (fun c => nonroot (build upstream2x_gen c tag_rules_2x)) lexer_combos /\
+  map (fun t => nonroot (drop_tag_rules t)) stock_lexer_tables = map (fun c => nonroot (build stock_gen c [])) lexer_combos.
+Proof. exact nonroot_rules_equal_stock_lemma. Qed.
+Print Assumptions C19_nonroot_rules_equal_stock.
+
+Theorem C19_stock_rules_are_3x :
+  map drop_tag_rules stock_lexer_tables = map (fun c => build stock_gen c []) lexer_combos.
+Proof. exact stock_tables_lemma. Qed.
+Print Assumptions C19_stock_rules_are_3x.
+
+Theorem C19_marker_switch_is_root_only :
+  forall (c : combo) (tags : list rule), nonroot (build bundled_gen c tags) = nonroot (build upstream2x_gen c tags).
+Proof. exact nonroot_marker_free. Qed.
+Print Assumptions C19_marker_switch_is_root_only.
+
+Example C19_option_combinations_cover_the_switches :
+  existsb (fun c => c_lstrip c && c_trim c) lexer_combos = true /\
+  existsb (fun c => c_lstrip c && negb (c_trim c)) lexer_combos = true /\
+  existsb (fun c => negb (c_lstrip c) && c_trim c) lexer_combos = true /\
+  existsb (fun c => negb (c_lstrip c) && negb (c_trim c)) lexer_combos = true /\
+  existsb (fun c => Nat.ltb 3 (length (c_order_bundled c))) lexer_combos = true /\
+  existsb (fun c => negb (str_eqb (c_bs c) (s2l "\{%"))) lexer_combos = true.
+Proof. exact combos_cover. Qed.
